@@ -46,7 +46,8 @@ import (
 // Destroy calls are recorded; destroyed instances stay listed for a short while (as C14's driver:
 // without this the pool drops a worker within one sync interval of its destruction and an SSH
 // handshake still in progress dereferences the missing worker in Pool.reportSSHConnected, which
-// kills the process; notes/C14.md observation O2).
+// kills the process; notes/C14.md observation O2, here finding F15b — it still happens when a handshake
+// takes longer than the instance lingers).
 
 type verifC15Quota struct{ error }
 
@@ -57,7 +58,7 @@ type verifC15Seen struct {
 	at   time.Time
 }
 
-const verifC15Linger = 2 * time.Second
+const verifC15Linger = 5 * time.Second
 
 type verifC15Cloud struct {
 	sd      *test.StubDriver
